@@ -55,6 +55,14 @@ def _host_state_programs():
         "ㄴ ㄷ (ㄱ ((ㅂ ㅂㄷ ㅂㅎㄷ) ㅅㅈㅎㄱ ㄷㅎㄷ) ㅎㄴ) ㅎㄷ",
         "ㄱ ((ㅂ ㅅ ㅂㄹ ㅂㅎㄹ) (ㄱ ㄹ ㅅㅈㅎㄷ) ㄷㅎㄷ) ㅎㄴ",
         "(ㄴ ㅅㅅㅎㄴ ㄷ ㄴㄴㅎㄷ) (ㄱ ((ㅂ ㅅ ㅂㄹ ㅂㅎㄹ) ㅅㅈㅎㄱ ㄷㅎㄷ) ㅎㄴ) ㅎㄴ",
+        # host OS errors of different kinds (missing file, a directory, a file used as a directory), caught and *inspected*: the
+        # exception value is the same whatever errors earlier evaluations met (seeded change S20k accumulated the errno of every
+        # OS error of the process in one class-level list)
+        render(bi('ㅅㄷ', bi('ㅂ', str_lit("없다.pbhhg")), fundef(arg(0)))),
+        render(bi('ㅅㄷ', bi('ㅂ', str_lit("나")), fundef(arg(0)))),
+        render(bi('ㅅㄷ', bi('ㅂ', str_lit("나/다.pbhhg/x")), fundef(arg(0)))),
+        render(bi('ㅈㄷ', bi('ㅅㄷ', bi('ㅂ', str_lit("없다.pbhhg")), fundef(arg(0))))),
+        render(bi('ㅂ', str_lit("없다.pbhhg"))),
         "ㄱ (ㄱㅇㄱ ㄴ ㄷㅎㄷ ㄱㅇ ㅎㄴ ㅎ) ㅎㄴ",                   # unbounded non-tail-free loop: limit or runs forever? tail call: bounded by timeout
     ][:-1]
 
